@@ -22,6 +22,7 @@ CONTROLS = {
                          ("CancelOnShutdown.mc.cfg", {"Bug": '"skip_one"'}, "ContractHolds"),
                          ("CancelOnShutdown.mc.cfg", {"Bug": '"snapshot_before_gate"'}, "ContractHolds"),
                          ("CancelOnShutdown.mc.cfg", {"Bug": '"submit_cancels_late"'}, "ContractHolds"),
+                         ("CancelOnShutdown.mc2.cfg", {"Bug": '"snapshot_live_iteration"'}, "ContractHolds"),
                          ("CancelOnShutdown.mc.cfg", {"AsShipped_D2": "TRUE"}, "NoABBA")],
     "FutureImpl": [("FutureImpl.mc.cfg", {"Bug": '"append_when_done"'}, "NoCallbackLeft"),
                    ("FutureImpl.mc.cfg", {"Bug": '"keep_callbacks"'}, "NoCallbackLeft"),
